@@ -94,7 +94,7 @@ def wfSeg (afterColl : Bool) : Seg → Bool
   | (.traverse, .none) => true
   | (.index, .int _) => true
   | (.index, .str sl) => wfSlice sl
-  | (.anchor, .str a) => !a.any opChar
+  | (.anchor, .str a) => a ≠ [] && !a.contains '*' && !a.any opChar
   | (.search, .search _ m attr term) =>
     attr ≠ [] && attr.head? ≠ some '&' && !attr.any opChar &&
     !quoteWrapped term &&
